@@ -97,7 +97,7 @@ SPECS = [
          raises={'*': {'ensures': ["raised('e9') or raised('h1')"]}},
          serves=PROP + ["C02", "C07"]),
     dict(id='S-Repeat', text='A<li tal:repeat="i e4">%s</li>B' % H1,
-         own_names=['i'],
+         own_names=['i'], probe_values={'4': 'iterable'},
          loops={1: {
              'inv': ["local('____index') == rlen() - _i",
                      "S() == acc(_i)",
